@@ -33,7 +33,8 @@ ASSUMPTIONS = [
 FEATURES = ['sibling_prefix', 'outside_tree', 'link_in_out_file', 'link_in_out_dir', 'link_in_in',
             'link_out_in_dir', 'chain', 'dangling', 'ext_only_link', 'dir_beside_tex', 'latex_ext',
             'nested_include', 'link_to_base', 'deep_base', 'abs_links', 'dir_tex_link', 'base_dot_tex',
-            'case_sibling', 'dot_links', 'out_link_to_nest', 'dotdot_names', 'odd_names', 'name_and_ext']
+            'case_sibling', 'dot_links', 'out_link_to_nest', 'dotdot_names', 'odd_names', 'name_and_ext',
+            'nest_chain', 'nest_cycle', 'pub_share']
 PERSISTENT_FEATURES = ['loop', 'unreadable_file', 'unsearchable_dir', 'non_utf8', 'long_name', 'long_chain']
 
 
@@ -248,6 +249,34 @@ def gen_layout(rng, batch):
             b.d(base + '/sub/inc')
             b.f(base + '/sub/inc/n2.tex', extra=' \\input{%s} tail' % rng.choice(['onlyout', 'secret', 'a']))
             b.l(out + '/back2.tex', tgt(out, base + '/sub/inc/n2.tex'))
+    if 'nest_chain' in feats:
+        # inputs nested three or four deep, across directories; only the last one may try to leave
+        last = rng.choice(['../out/secret', '../../out/secret', 'lnkd/secret', 'sub/a', 'secret', 'lnk', 'onlyout',
+                           out + '/secret.tex', '../' + basename + '2/secret', 'a', 'lnkf', 'up/secret'])
+        hops = rng.choice([['nc1.tex', 'sub/nc2.tex', 'nc3.tex'], ['nc1.tex', 'sub/nc2.tex', 'sub/deep/nc3.tex', 'nc4.tex'],
+                           ['sub/nc1.tex', 'nc2.tex', 'sub/nc3.tex']])
+        if any('deep' in h for h in hops):
+            b.d(base + '/sub/deep')
+        for k, h in enumerate(hops):
+            nxt = hops[k + 1][:-4] if k + 1 < len(hops) else last
+            how = rng.choice(['\\input{%s}', '\\input{%s}', '\\include{%s}', '\\input %s '])
+            b.f(base + '/' + h, extra=' ' + how % nxt + ' t%d' % k)
+    if 'nest_cycle' in feats:
+        b.f(base + '/cyc1.tex', extra=' \\input{cyc2} u')
+        b.f(base + '/cyc2.tex', extra=' \\input{%s} v' % rng.choice(['cyc1', 'cyc1.tex', 'sub/../cyc1', 'cyc2']))
+    if 'pub_share' in feats:
+        # a directory link leading out, where a link leads back in to a file that inputs a name
+        # existing only out there
+        share = out + '/share'
+        b.d(share)
+        b.l(base + '/pub', tgt(base, share))
+        inner = rng.choice(['notes', 'notes.tex', './notes', 'intro2'])
+        b.f(base + '/intro.tex', extra=' \\input{%s} w' % inner)
+        b.l(share + '/intro.tex', tgt(share, base + '/intro.tex'))
+        outs.append(b.f(share + '/notes.tex') and share + '/notes.tex')
+        b.f(base + '/intro2.tex', extra=' \\input{pub/notes} x')
+        if rng.random() < 0.5:
+            b.l(share + '/intro2.tex', tgt(share, base + '/intro2.tex'))
     if 'link_to_base' in feats:
         b.l(parent + '/lbase', basename)
         b.l('/sim/lb', tgt('/sim', base))
@@ -349,7 +378,10 @@ def gen_name(rng, fs, res, basenode, layout):
                            'li/../../secret', '../' + bn.swapcase() + '/secret', '../' + bn.lower() + '/secret',
                            '../' + bn.upper() + '/a.tex', 'lnkd/../' + bn.upper() + '/secret',
                            '..appendix', '..appendix.tex', '..drafts/d', 'alias', '..', '...tex', '../..appendix',
-                           'n1', 'n2', 'n3', 'n4', 'n4.tex', 'sub/n5', 'sub/n5.tex', 'n1.tex'])
+                           'n1', 'n2', 'n3', 'n4', 'n4.tex', 'sub/n5', 'sub/n5.tex', 'n1.tex',
+                           'nc1', 'sub/nc1', 'sub/nc2', 'cyc1', 'cyc2', 'pub/intro', 'pub/intro.tex', 'intro', 'intro2',
+                           'pub/intro2', 'pub/../intro', 'pub/notes', '~/secret.tex', '~/secret', '$HOME/secret.tex',
+                           '$TEXINPUTS/secret', 'secret'])
         return name
     # mutations
     x = rng.random()
@@ -398,6 +430,12 @@ def generate(rng, tier, run):
     ops.append(['set_dir', rng.choice(layout['dirspecs']), rng.random() < 0.9,
                 rng.choice(['new', 'new', 'new', 'assign-dir'])])
     nmut = 0
+    if rng.random() < 0.08:
+        # the process environment a TeX user may well have
+        par = layout['base'].rsplit('/', 1)[0]
+        ops.insert(0, ['setenv', rng.choice(['TEXINPUTS', 'TEXINPUTS', 'TEXINPUTS', 'HOME', 'TEXMFHOME', 'PWD', 'TEXINPUTS_latex']),
+                       rng.choice(['.:../out:', 'lnkd:', par + '/out:', '.:./sub//:../out:', '..//', par + '/out',
+                                   'sub:' + par + '/out/share', ':' + layout['base'] + '2', '/sim/other:.'])])
     dirs_for_cwd = sorted(set([layout['cwd'], W, layout['base'], layout['base'] + '/sub', '/sim']))
     for _ in range(n_reads):
         z = rng.random()
@@ -444,7 +482,7 @@ def generate(rng, tier, run):
                 ops.append(['fault', rng.randint(1, 14), rng.randrange(4)])
             name = gen_name(rng, fs, res, basenode if basenode is not None else fs.root, layout)
             via = 'rif' if rng.random() < 0.65 else rng.choice(['input', 'include'])
-            if ('nest' in name or 'back' in name or 'n2' in name) and rng.random() < 0.7:
+            if any(x in name for x in ('nest', 'back', 'n2', 'nc', 'cyc', 'intro')) and rng.random() < 0.7:
                 via = rng.choice(['input', 'include'])
             ops.append(['read', name, via])
     return {'batch': batch, 'layout': layout, 'ops': ops}
@@ -577,6 +615,12 @@ def execute(program):
                                         expected='the directory is accepted')
                 stats.inc('op:set_dir-' + mode)
                 trace.append(['set_dir', dirspec, strict, mode])
+                continue
+            if kind == 'setenv':
+                import os as _os
+                _os.environ[op[1]] = op[2]           # this process is a throw-away child
+                stats.inc('op:setenv-' + op[1])
+                trace.append(['setenv', op[1]])
                 continue
             if kind == 'chdir':
                 try:
